@@ -64,6 +64,10 @@ func main() {
 	switch stream {
 	case "core":
 		stats = runCore(*seed, *n, *ops, out, *thorough)
+	case "keys":
+		stats = runKeys(*seed, *n, *ops, out, *thorough)
+	case "sign":
+		stats = runSign(*seed, *n, out, *thorough)
 	case "order":
 		stats = runOrder(*seed, *n, out, *thorough)
 	default:
